@@ -73,11 +73,13 @@ pub struct Gen {
     pub max_variadic: usize,
     /// string to use next (systematic string-length passes)
     pub force_string: Option<String>,
+    /// only pick mask bits / enumerants that take no parameters
+    pub param_free: bool,
 }
 
 impl Gen {
     pub fn new(start_id: u32) -> Gen {
-        Gen { next_id: start_id, types: TypeModel::new(), num_types: vec![], typed_values: vec![], lit: LitStyle::Marker, forces: vec![], max_variadic: 3, force_string: None }
+        Gen { next_id: start_id, types: TypeModel::new(), num_types: vec![], typed_values: vec![], lit: LitStyle::Marker, forces: vec![], max_variadic: 3, force_string: None, param_free: false }
     }
     pub fn fresh(&mut self) -> u32 {
         let v = self.next_id;
@@ -155,7 +157,18 @@ impl Gen {
                 vals[rng.below(vals.len())].1
             }
             _ => {
-                let bits = d.mask_bits(k);
+                let mut bits = d.mask_bits(k);
+                if self.param_free {
+                    bits.retain(|b| d.params_seq(k, *b).is_empty());
+                    if bits.is_empty() {
+                        return 0;
+                    }
+                    return match rng.below(3) {
+                        0 => 0,
+                        1 => *rng.pick(&bits),
+                        _ => bits.iter().filter(|_| rng.chance(1, 2)).fold(0, |a, b| a | b),
+                    };
+                }
                 match rng.below(6) {
                     0 => 0,
                     1 => *rng.pick(&bits),
